@@ -3,6 +3,7 @@ package c19
 
 import (
 	"bytes"
+	"encoding/json"
 	"fmt"
 	"github.com/hashicorp/hcl/v2/ext/dynblock"
 	"github.com/hashicorp/hcl/v2/hcldec"
@@ -10,6 +11,7 @@ import (
 
 	"github.com/hashicorp/hcl/v2"
 	"github.com/hashicorp/hcl/v2/hclsyntax"
+	hcljson "github.com/hashicorp/hcl/v2/json"
 	"github.com/zclconf/go-cty/cty"
 
 	"verif/harness/core"
@@ -188,6 +190,46 @@ func Handle(c *core.Check, st core.State) {
 			}
 			if !c.Violation(sig, fmt.Sprintf("%q (marks nested=%v): canary %q appears in the %s of diagnostic %q: %s", src, nested, cn, where, d.Summary, d.Detail), vec) {
 				return
+			}
+		}
+	}
+	// the JSON syntax's own diagnostics: the expression as an object KEY, twice (duplicate attribute,
+	// invalid key), bare and with a literal prefix
+	if !strings.Contains(src, "<<") {
+		inner, _ := json.Marshal("${" + src + "}")
+		in := string(inner[1 : len(inner)-1])
+		for _, js := range []string{`{"` + in + `": 1, "` + in + `": 2}`, `{"p-` + in + `": 1, "p-` + in + `": 2}`} {
+			je, jd := hcljson.ParseExpression([]byte(js), "k.json")
+			if jd.HasErrors() {
+				continue
+			}
+			jfiles := map[string]*hcl.File{"k.json": {Bytes: []byte(js)}}
+			for variant := 0; variant < 3; variant++ {
+				scope := CanaryScope(variant == 1)
+				if variant == 2 {
+					scope = PartialScope()
+				}
+				var ds hcl.Diagnostics
+				c.Count("evaluations", 1)
+				jvec := map[string]any{"state": st.Raw, "source": src, "json": js}
+				if rec, p := core.Guard(func() { _, ds = je.Value(&hcl.EvalContext{Variables: scope, Functions: funcs}) }); p {
+					c.Violation("panic/json-object-key", fmt.Sprintf("JSON expression %s panicked with a marked scope: %v", js, rec), jvec)
+					return
+				}
+				if len(ds) == 0 {
+					continue
+				}
+				var where, cn string
+				var d *hcl.Diagnostic
+				if rec, p := core.Guard(func() { where, cn, d = CheckDiags(ds, jfiles) }); p {
+					c.Violation("panic-in-text-writer/json-object-key", fmt.Sprintf("rendering diagnostics of %s panicked: %v", js, rec), jvec)
+					return
+				}
+				if where != "" && !strings.HasPrefix(where, "text-writer") {
+					if !c.Violation("leak/json/"+where+"/"+d.Summary, fmt.Sprintf("JSON expression %s: canary %q appears in the %s of diagnostic %q: %s", js, cn, where, d.Summary, d.Detail), jvec) {
+						return
+					}
+				}
 			}
 		}
 	}
